@@ -6,7 +6,7 @@ import random
 
 from . import tlc
 from . import chainio as cio
-from .c12 import flatten_universe, random_chain, judge, record, selftest
+from .c12 import flatten_universe, random_chain, shaped_chain, judge, record, selftest
 from .core import Outcome, ensure_repo_on_path, finish, pmap
 from .descriptor import parse_all
 
@@ -114,6 +114,7 @@ def run(tier, seed, replay_path=None):
         else:
             o.exhaustive = True
         chains += [random_chain(rng, 8 if i % 3 == 0 else 5) for i in range(3000 if deep else 300)]
+        chains += [shaped_chain(rng, "wide" if i % 2 else "deep") for i in range(160 if deep else 24)]
         if replay_path:
             chains = [json.load(open(replay_path))["case"]["c"]]
         cases = pmap(build, [(i, c, seed * 5 + i) for i, c in enumerate(chains)])
